@@ -6,6 +6,7 @@ import (
 	"bytes"
 	"encoding/binary"
 	"fmt"
+	"runtime/debug"
 	"testing"
 
 	"google.golang.org/protobuf/proto"
@@ -101,6 +102,79 @@ func checkAEAD(t *rapid.T, c *aeadcase.Case, pt, ad []byte) {
 	if err != nil || !bytes.Equal(got, pt) {
 		t.Fatalf("%s: Tink cannot decrypt the independent implementation's ciphertext %s: %s, %v", desc(), gen.Hex(rct), gen.Hex(got), err)
 	}
+	reusedBuffers(t, c, desc, nonce, pt, ad)
+}
+
+func xored(b []byte, v byte) []byte {
+	out := make([]byte, len(b))
+	for i := range b {
+		out[i] = b[i] ^ v
+	}
+	return out
+}
+
+// reusedBuffers: a caller that keeps ONE plaintext buffer, ONE associated-data buffer and ONE
+// ciphertext buffer and fills them with new bytes between calls must get, from the same primitive
+// object, what a caller with fresh slices gets: the property quantifies over byte strings, not over
+// the slices that carry them. Each stage starts with a value the object has not met (so that the
+// first call through the buffer cannot be answered from anything the object remembers) and then
+// changes the bytes in place.
+//
+//	Encrypt(ptbuf, adbuf) with (pt^0x11, ad^0x11), then with (pt^0x22, ad^0x22): the independent
+//	implementation must open the second ciphertext to pt^0x22 under ad^0x22;
+//	Decrypt(ctbuf, adbuf) with a fresh Tink ciphertext of (pt, ad), then with a ciphertext of
+//	(pt^0x33, ad^0x33) made by the independent implementation (same length): must return pt^0x33.
+func reusedBuffers(t *rapid.T, c *aeadcase.Case, desc func() string, nonce, pt, ad []byte) {
+	if len(pt)+len(ad) == 0 {
+		return // nothing can be changed in place
+	}
+	prefix := c.Prefix()
+	ptbuf, adbuf := xored(pt, 0x11), xored(ad, 0x11)
+	ct1, err := c.P.Encrypt(ptbuf, adbuf)
+	if err != nil {
+		t.Fatalf("%s: Encrypt of pt^0x11, ad^0x11 failed: %v", desc(), err)
+	}
+	for i := range ptbuf {
+		ptbuf[i] ^= 0x33
+	}
+	for i := range adbuf {
+		adbuf[i] ^= 0x33
+	}
+	ct2, err := c.P.Encrypt(ptbuf, adbuf)
+	if err != nil {
+		t.Fatalf("%s: Encrypt of pt^0x22, ad^0x22 (caller's buffers refilled in place) failed: %v", desc(), err)
+	}
+	if !bytes.HasPrefix(ct2, prefix) {
+		t.Fatalf("%s: second ciphertext lacks the prefix", desc())
+	}
+	if rpt, err := c.RefOpen(ct2[len(prefix):], xored(ad, 0x22)); err != nil || !bytes.Equal(rpt, xored(pt, 0x22)) {
+		t.Fatalf("%s: the caller refilled its plaintext and associated-data buffers in place (first call: every byte ^0x11, second call: every byte ^0x22); the independent implementation opens the second ciphertext %s to %s, %v - want pt^0x22 under ad^0x22", desc(), gen.Hex(ct2), gen.Hex(rpt), err)
+	}
+	if rpt, err := c.RefOpen(ct1[len(prefix):], xored(ad, 0x11)); err != nil || !bytes.Equal(rpt, xored(pt, 0x11)) {
+		t.Fatalf("%s: the first ciphertext %s (of pt^0x11, ad^0x11), examined after the second Encrypt call, opens to %s, %v", desc(), gen.Hex(ct1), gen.Hex(rpt), err)
+	}
+	fresh, err := c.P.Encrypt(pt, ad)
+	if err != nil {
+		t.Fatalf("%s: Encrypt failed: %v", desc(), err)
+	}
+	ctbuf, adbuf2 := bytes.Clone(fresh), bytes.Clone(ad)
+	got, err := c.P.Decrypt(ctbuf, adbuf2)
+	if err != nil || !bytes.Equal(got, pt) {
+		t.Fatalf("%s: Decrypt of a fresh ciphertext %s: %s, %v", desc(), gen.Hex(fresh), gen.Hex(got), err)
+	}
+	pt3, ad3 := xored(pt, 0x33), xored(ad, 0x33)
+	nonce2 := xored(nonce, 0xff)
+	second := append(append([]byte{}, prefix...), c.RefSeal(nonce2, pt3, ad3)...)
+	if len(second) != len(ctbuf) {
+		t.Fatalf("harness: second ciphertext has another length")
+	}
+	copy(ctbuf, second)
+	copy(adbuf2, ad3)
+	got2, err := c.P.Decrypt(ctbuf, adbuf2)
+	if err != nil || !bytes.Equal(got2, pt3) {
+		t.Fatalf("%s: the caller's ciphertext and associated-data buffers first held Tink's ciphertext %s (decrypted correctly), then - overwritten in place - the independent implementation's ciphertext %s of pt^0x33 under ad^0x33 (nonce %x): Decrypt returns %s, %v", desc(), gen.Hex(fresh), gen.Hex(second), nonce2, gen.Hex(got2), err)
+	}
+	evid.Add("reused_buffer_stages", 2)
 }
 
 // afterFailures: the round-trip clause holds for every call, also for the call after one that
@@ -152,6 +226,14 @@ func TestAEAD(t *testing.T) {
 		c := aeadcase.Draw(rt)
 		pt := gen.Bytes(rt, "pt", maxPT())
 		ad := gen.BytesOrNil(rt, "ad", 512)
+		if n, big := aeadcase.BigLen(rt, "pt", 200); big {
+			// size class: page / buffer boundaries and 1 MiB, beyond the cap of the ordinary mixture
+			pt = gen.BytesN(rt, "bigpt", n)
+			if rapid.IntRange(0, 3).Draw(rt, "bigad") == 0 {
+				ad = gen.BytesN(rt, "bigadbytes", aeadcase.BigLens[rapid.IntRange(0, 5).Draw(rt, "bigadlen")])
+			}
+			evid.Add("size_class_cases", 1)
+		}
 		if ad != nil && rapid.IntRange(0, 3).Draw(rt, "shared_record") == 0 {
 			// plaintext and associated data as adjacent views of one record buffer
 			wantPT, wantAD := bytes.Clone(pt), bytes.Clone(ad)
@@ -267,24 +349,40 @@ func TestGCMSIVCounter(t *testing.T) {
 	rapid.Check(t, func(rt *rapid.T) {
 		key := gen.BytesN(rt, "key", rapid.SampledFrom([]int{16, 32}).Draw(rt, "keylen"))
 		tag := gen.BytesN(rt, "tag", 16)
-		kind := rapid.SampledFrom([]string{"random", "nearwrap", "wrap-exact", "byte-carry"}).Draw(rt, "kind")
+		kind := rapid.SampledFrom([]string{"random", "nearwrap", "farwrap", "wrap-exact", "byte-carry"}).Draw(rt, "kind")
 		switch kind {
 		case "nearwrap":
 			binary.LittleEndian.PutUint32(tag[:4], 0xFFFFFFFF-uint32(rapid.IntRange(0, 6).Draw(rt, "dist")))
+		case "farwrap":
+			// the wrap happens up to ~300 blocks into the input (beyond any batch of keystream blocks)
+			binary.LittleEndian.PutUint32(tag[:4], 0xFFFFFFFF-uint32(rapid.IntRange(7, 300).Draw(rt, "fardist")))
 		case "wrap-exact":
 			binary.LittleEndian.PutUint32(tag[:4], 0xFFFFFFFF)
 			tag[4] = 0xff // a wrap must not carry into byte 4
 		case "byte-carry":
 			binary.LittleEndian.PutUint32(tag[:4], uint32(rapid.SampledFrom([]uint32{0xFF, 0xFFFF, 0xFFFFFF, 0xFEFF, 0x00FFFFFF}).Draw(rt, "ctr")))
 		}
-		in := gen.BytesN(rt, "in", rapid.IntRange(0, 200).Draw(rt, "inlen"))
+		inLen := rapid.IntRange(0, 200).Draw(rt, "inlen")
+		switch k := rapid.IntRange(0, 9).Draw(rt, "inlen_kind"); {
+		case kind == "farwrap":
+			// long enough to cross the wrap, sometimes ending exactly at / just after it
+			dist := int(0xFFFFFFFF - binary.LittleEndian.Uint32(tag[:4]))
+			inLen = 16*dist + rapid.SampledFrom([]int{0, 1, 15, 16, 17, 32, 33, 100, 4096}).Draw(rt, "past_wrap")
+		case k >= 7:
+			inLen = rapid.SampledFrom([]int{255, 256, 257, 1024, 4096}).Draw(rt, "inlen_edge")
+		}
+		in := gen.BytesN(rt, "in", inLen)
 		out := make([]byte, len(in))
 		if err := internalaead.VerifAESGCMSIVCTR(key, tag, in, out); err != nil {
 			rt.Fatalf("aesCTR(key=%x tag=%x len=%d): %v", key, tag, len(in), err)
 		}
 		want := sym.GCMSIVCtr(key, tag, in)
 		if !bytes.Equal(out, want) {
-			rt.Fatalf("AES-GCM-SIV CTR key=%x tag=%x in=%x: got %x, RFC 8452 reference %x", key, tag, in, out, want)
+			first := 0
+			for first < len(out) && out[first] == want[first] {
+				first++
+			}
+			rt.Fatalf("AES-GCM-SIV CTR key=%x tag=%x len(in)=%d in=%s: first difference at byte %d (keystream block %d): got %s, RFC 8452 reference %s", key, tag, len(in), gen.Hex(in), first, first/16, gen.Hex(out[first/16*16:]), gen.Hex(want[first/16*16:]))
 		}
 		evid.Case("gcmsiv-ctr/"+kind+"/blocks="+gen.LenClass(len(in)), len(in) > 16, evid.NewH().B(key).B(tag).B(in).Sum(), func() any {
 			return map[string]any{"key": gen.Hex(key), "tag": gen.Hex(tag), "len": len(in), "kind": kind}
@@ -379,7 +477,10 @@ func marshalDEK(d dekSpec, keyBytes, macKey []byte) []byte {
 	return b
 }
 
-// TestEnvelope: KMS envelope framing be32(len(encDEK)) || encDEK || payload, both directions.
+// TestEnvelope: KMS envelope framing be32(len(encDEK)) || encDEK || payload, both directions,
+// through both constructors and through the keyset / key-manager route (there also behind a TINK
+// output prefix and in a keyset of two envelope keys that share the KEK URI and differ in the DEK
+// template).
 func TestEnvelope(t *testing.T) {
 	specs := dekSpecs()
 	rapid.Check(t, func(rt *rapid.T) {
@@ -390,6 +491,7 @@ func TestEnvelope(t *testing.T) {
 		var kek tink.AEAD
 		var kekPrefix []byte
 		paddedTarget := 0
+		fakeURI := ""
 		switch kekKind {
 		case "aesgcm-subtle":
 			kek = tk.Must(aeadsubtle.NewAESGCM(kekKey))
@@ -403,6 +505,7 @@ func TestEnvelope(t *testing.T) {
 			if err != nil {
 				rt.Fatalf("fakekms.NewKeyURI: %v", err)
 			}
+			fakeURI = uri
 			kek = tk.Must(fakekms.NewAEAD(uri))
 		case "padded":
 			// a KMS whose wrapped keys have a chosen length, up to and beyond the format's documented
@@ -411,14 +514,71 @@ func TestEnvelope(t *testing.T) {
 			kek = paddedKEK{inner: tk.Must(aeadsubtle.NewAESGCM(kekKey)), target: target}
 			paddedTarget = target
 		}
-		api := rapid.SampledFrom(tk.EnvelopeAPIs).Draw(rt, "api")
-		env, err := tk.Envelope(api, d.kt, kek)
+		api := rapid.SampledFrom(tk.EnvelopeAPIsAll).Draw(rt, "api")
+		// Shape of the keyset on the keyset route: the RAW template as the library hands it out, one
+		// key behind a TINK prefix, or two keys for the same KEK URI with different DEK templates.
+		shape := "-"
+		var prefix []byte // output prefix of the key that encrypts
+		var other *dekSpec
+		var otherPrefix []byte
+		var env tink.AEAD
+		var err error
+		if api == "keyset" {
+			shape = rapid.SampledFrom([]string{"raw-template", "tink-prefix", "two-keys"}).Draw(rt, "shape")
+		}
+		if shape == "-" || (shape == "raw-template" && kekKind != "fakekms") {
+			env, err = tk.Envelope(api, d.kt, kek)
+		} else {
+			// the KEK is found through the registry's KMS clients: the fakekms client for its own URIs,
+			// the harness's client for the other KEK kinds
+			uri, release := fakeURI, func() {}
+			if kekKind != "fakekms" {
+				uri, release = tk.KEKURI(kek)
+			}
+			keys := []tk.EnvelopeKey{{DEK: d.kt, Prefix: tinkpb.OutputPrefixType_RAW}}
+			primary := 0
+			if shape != "raw-template" {
+				id := gen.KeyID(rt, "envid")
+				if shape == "tink-prefix" || rapid.Bool().Draw(rt, "first_tink") {
+					keys[0].Prefix, keys[0].ID = tinkpb.OutputPrefixType_TINK, id
+					prefix = tk.Prefix(tk.Tink, id)
+				} else {
+					keys[0].ID = id
+				}
+				if shape == "two-keys" {
+					var rest []dekSpec
+					for _, x := range specs {
+						if x.name != d.name {
+							rest = append(rest, x)
+						}
+					}
+					o := rapid.SampledFrom(rest).Draw(rt, "dek2")
+					other = &o
+					k2 := tk.EnvelopeKey{DEK: o.kt, Prefix: tinkpb.OutputPrefixType_RAW, ID: id + 1 + uint32(rapid.IntRange(0, 3).Draw(rt, "id2off"))}
+					if rapid.Bool().Draw(rt, "second_tink") {
+						k2.Prefix = tinkpb.OutputPrefixType_TINK
+						otherPrefix = tk.Prefix(tk.Tink, k2.ID)
+					}
+					if rapid.Bool().Draw(rt, "second_first") { // the encrypting key is the second entry
+						keys = []tk.EnvelopeKey{k2, keys[0]}
+						primary = 1
+					} else {
+						keys = append(keys, k2)
+					}
+				}
+			}
+			env, err = tk.EnvelopeFromURI(uri, primary, keys)
+			release()
+		}
 		if err != nil {
-			rt.Fatalf("envelope constructor %s refuses the supported DEK template %s: %v", api, d.name, err)
+			rt.Fatalf("envelope constructor %s (keyset shape %s) refuses the supported DEK template %s: %v", api, shape, d.name, err)
 		}
 		pt := gen.Bytes(rt, "pt", 4096)
 		ad := gen.BytesOrNil(rt, "ad", 300)
-		desc := fmt.Sprintf("envelope api=%s dek=%s kek=%s kekkey=%x pt=%s ad=%s", api, d.name, kekKind, kekKey, gen.Hex(pt), gen.Hex(ad))
+		desc := fmt.Sprintf("envelope api=%s shape=%s prefix=%x dek=%s kek=%s kekkey=%x pt=%s ad=%s", api, shape, prefix, d.name, kekKind, kekKey, gen.Hex(pt), gen.Hex(ad))
+		if other != nil {
+			desc += fmt.Sprintf(" second-key(dek=%s prefix=%x)", other.name, otherPrefix)
+		}
 		ct, err := env.Encrypt(pt, ad)
 		if err != nil {
 			if paddedTarget > 4096 {
@@ -437,15 +597,20 @@ func TestEnvelope(t *testing.T) {
 		if err != nil || !bytes.Equal(got, pt) {
 			rt.Fatalf("%s: round trip gave %s, %v", desc, gen.Hex(got), err)
 		}
-		// independent parse of the frame
-		if len(ct) < 4 {
+		// independent parse of the frame (behind the output prefix, if the keyset entry has one)
+		if !bytes.HasPrefix(ct, prefix) {
+			rt.Fatalf("%s: ciphertext %s does not start with the output prefix %x", desc, gen.Hex(ct), prefix)
+		}
+		pl := len(prefix)
+		frame := ct[pl:]
+		if len(frame) < 4 {
 			rt.Fatalf("%s: ciphertext too short", desc)
 		}
-		n := int(binary.BigEndian.Uint32(ct[:4]))
-		if n <= 0 || 4+n > len(ct) {
-			rt.Fatalf("%s: encrypted-DEK length field %d inconsistent with ciphertext length %d", desc, n, len(ct))
+		n := int(binary.BigEndian.Uint32(frame[:4]))
+		if n <= 0 || 4+n > len(frame) {
+			rt.Fatalf("%s: encrypted-DEK length field %d inconsistent with frame length %d", desc, n, len(frame))
 		}
-		encDEK, payload := ct[4:4+n], ct[4+n:]
+		encDEK, payload := frame[4:4+n], frame[4+n:]
 		var dek []byte
 		if kekKind == "padded" && n != paddedTarget {
 			rt.Fatalf("%s: encrypted-DEK length field %d, the KEK returned %d bytes", desc, n, paddedTarget)
@@ -479,29 +644,40 @@ func TestEnvelope(t *testing.T) {
 		if err != nil || !bytes.Equal(rpt, pt) {
 			rt.Fatalf("%s: independent implementation cannot open the payload with the recovered DEK: %v", desc, err)
 		}
-		// harness-built envelope -> Tink
+		// harness-built envelope -> Tink (for the encrypting key and, in a two-key keyset, for the other key)
 		if kekKind != "fakekms" && kekKind != "padded" {
-			k2 := gen.BytesN(rt, "dekkey", d.key)
-			var m2 []byte
-			if d.mac > 0 {
-				m2 = gen.BytesN(rt, "dekmac", d.mac)
+			build := func(label string, d dekSpec, prefix []byte) {
+				k2 := gen.BytesN(rt, label+"dekkey", d.key)
+				var m2 []byte
+				if d.mac > 0 {
+					m2 = gen.BytesN(rt, label+"dekmac", d.mac)
+				}
+				dek2 := marshalDEK(d, k2, m2)
+				iv := gen.BytesN(rt, label+"kekiv", 12)
+				enc2 := append(append(append([]byte{}, kekPrefix...), iv...), sym.GCMSeal(kekKey, iv, dek2, nil)...)
+				rc2 := aeadcase.Raw(d.typ, k2, m2, d.hash, d.iv, d.tag)
+				body := rc2.RefSeal(gen.BytesN(rt, label+"deknonce", rc2.NonceLen), pt, ad)
+				built := binary.BigEndian.AppendUint32(append([]byte{}, prefix...), uint32(len(enc2)))
+				built = append(append(built, enc2...), body...)
+				got, err := env.Decrypt(built, ad)
+				if err != nil || !bytes.Equal(got, pt) {
+					rt.Fatalf("%s: Tink cannot decrypt an envelope assembled by the independent implementation (key with dek=%s prefix=%x, dek key %x): %s, %v", desc, d.name, prefix, k2, gen.Hex(got), err)
+				}
 			}
-			dek2 := marshalDEK(d, k2, m2)
-			iv := gen.BytesN(rt, "kekiv", 12)
-			enc2 := append(append(append([]byte{}, kekPrefix...), iv...), sym.GCMSeal(kekKey, iv, dek2, nil)...)
-			rc2 := aeadcase.Raw(d.typ, k2, m2, d.hash, d.iv, d.tag)
-			body := rc2.RefSeal(gen.BytesN(rt, "deknonce", rc2.NonceLen), pt, ad)
-			frame := binary.BigEndian.AppendUint32(nil, uint32(len(enc2)))
-			frame = append(append(frame, enc2...), body...)
-			got, err := env.Decrypt(frame, ad)
-			if err != nil || !bytes.Equal(got, pt) {
-				rt.Fatalf("%s: Tink cannot decrypt an envelope assembled by the independent implementation (dek key %x): %s, %v", desc, k2, gen.Hex(got), err)
+			build("", d, prefix)
+			if other != nil {
+				build("second_", *other, otherPrefix)
+				evid.Add("two_key_envelope_cases", 1)
 			}
 		}
-		// the same envelope object after failed calls: length field, encrypted DEK, payload
-		afterFailures(rt, desc, env, ct, ad, pt, [][2]int{{0, 4}, {4, 4 + n}, {4 + n, len(ct)}})
-		evid.Case(fmt.Sprintf("envelope/%s/%s/%s/pt=%s", api, d.name, kekKind, gen.LenClass(len(pt))), len(pt) >= 1, evid.NewH().S(api).S(d.name).S(kekKind).B(kekKey).B(pt).B(ad).Sum(), func() any {
-			return map[string]any{"api": api, "dek": d.name, "kek": kekKind, "pt": gen.Hex(pt), "ad": gen.Hex(ad), "enc_dek_len": n}
+		// the same envelope object after failed calls: output prefix, length field, encrypted DEK, payload
+		afterFailures(rt, desc, env, ct, ad, pt, [][2]int{{0, pl}, {pl, pl + 4}, {pl + 4, pl + 4 + n}, {pl + 4 + n, len(ct)}})
+		class := fmt.Sprintf("envelope/%s/%s/%s/pt=%s", api, d.name, kekKind, gen.LenClass(len(pt)))
+		if shape != "-" {
+			class = fmt.Sprintf("envelope/%s:%s:prefix=%d/%s/%s/pt=%s", api, shape, pl, d.name, kekKind, gen.LenClass(len(pt)))
+		}
+		evid.Case(class, len(pt) >= 1, evid.NewH().S(api).S(shape).B(prefix).S(d.name).S(kekKind).B(kekKey).B(pt).B(ad).Sum(), func() any {
+			return map[string]any{"api": api, "shape": shape, "prefix": gen.Hex(prefix), "dek": d.name, "kek": kekKind, "pt": gen.Hex(pt), "ad": gen.Hex(ad), "enc_dek_len": n}
 		})
 	})
 }
@@ -629,6 +805,84 @@ func TestGCMSIVHugeInputs(t *testing.T) {
 			}
 			evid.Case(fmt.Sprintf("gcmsiv-huge/key=%d", kl*8), true, evid.NewH().I(int64(kl)).I(int64(s.ad)).I(int64(s.pt)).Sum(), func() any {
 				return map[string]any{"key_bits": kl * 8, "ad_len": s.ad, "pt_len": s.pt}
+			})
+		}
+	}
+}
+
+// TestCTRHMACHugeAD checks the 64-bit length field of the AES-CTR-HMAC encrypt-then-MAC
+// construction (HMAC over ad || iv || ct || be64(8*len(ad))) for an associated data of 2^29+17
+// bytes, whose bit length does not fit 32 bits, through the key / keyset route (aesctrhmac key,
+// aead.New) and through aead/subtle.NewEncryptThenAuthenticate. The associated data is all-zero so
+// that the reference (sym.HMACOfParts) streams it without holding it; ciphertext bytes and tag are
+// compared with the reference, and a reference-made ciphertext must decrypt.
+// Cost (measured): quick tier (one of SHA-1/224/256, by seed) 6-7 s and 0.55 GiB resident (the
+// untouched all-zero associated data costs no memory; the subtle route copies it once); thorough tier
+// all five hashes.
+func TestCTRHMACHugeAD(t *testing.T) {
+	seed := uint64(evid.EnvInt("VERIF_SEED", 1))
+	detrand.Seed(seed)
+	material := gen.Expand(seed, 200)
+	const adLen = 1<<29 + 17
+	ad := make([]byte, adLen)
+	pt := gen.Expand(seed+1, 33)
+	hashes := []string{[]string{"SHA1", "SHA224", "SHA256"}[seed%3]}
+	if evid.Tier() == "thorough" {
+		hashes = []string{"SHA1", "SHA224", "SHA256", "SHA384", "SHA512"}
+	}
+	digest := map[string]int{"SHA1": 20, "SHA224": 28, "SHA256": 32, "SHA384": 48, "SHA512": 64}
+	for hi, hashName := range hashes {
+		c := &aeadcase.Case{Type: "AESCTRHMAC", Hash: hashName}
+		c.Key = material[:16+16*int((seed>>2+uint64(hi))&1)]
+		c.MacKey = material[32 : 32+16+int(material[190])%120]
+		c.IVSize = 12 + int(material[191])%5
+		c.NonceLen = c.IVSize
+		c.TagSize = 10 + int(material[192])%(digest[hashName]-9)
+		for _, route := range []string{"handle", "subtle"} {
+			c.Route, c.Variant, c.ID = route, tk.NoPrefix, 0
+			if route == "handle" {
+				c.Variant, c.ID = tk.Tink, uint32(material[193])<<24|uint32(material[194])<<16|uint32(material[195])<<8|uint32(material[196])
+			}
+			if err := c.Rebuild(); err != nil {
+				t.Fatalf("%v: construction failed: %v", c, err)
+			}
+			debug.FreeOSMemory()
+			ct, err := c.P.Encrypt(pt, ad)
+			if err != nil {
+				t.Fatalf("%v: Encrypt with an all-zero associated data of %d bytes: %v", c, adLen, err)
+			}
+			prefix := c.Prefix()
+			if !bytes.HasPrefix(ct, prefix) || len(ct) != len(prefix)+c.IVSize+len(pt)+c.TagSize {
+				t.Fatalf("%v: ciphertext %x: wrong prefix or length", c, ct)
+			}
+			body := ct[len(prefix) : len(ct)-c.TagSize]
+			iv := body[:c.IVSize]
+			if want := sym.AESCTR(c.Key, iv, pt); !bytes.Equal(body[c.IVSize:], want) {
+				t.Fatalf("%v pt=%x: ciphertext bytes %x, reference AES-CTR under the same IV %x", c, pt, body[c.IVSize:], want)
+			}
+			refTag := func(body []byte) []byte {
+				lb := binary.BigEndian.AppendUint64(nil, uint64(adLen)*8)
+				return sym.HMACOfParts(sym.HashByName(hashName), c.MacKey, sym.Part{Zeros: adLen}, sym.Part{B: body}, sym.Part{B: lb})[:c.TagSize]
+			}
+			if want := refTag(body); !bytes.Equal(ct[len(ct)-c.TagSize:], want) {
+				t.Fatalf("%v pt=%x, all-zero associated data of %d bytes (%d bits): ciphertext %x has tag %x, reference HMAC over ad || iv || ct || be64(bit length of ad) gives %x", c, pt, adLen, uint64(adLen)*8, ct, ct[len(ct)-c.TagSize:], want)
+			}
+			debug.FreeOSMemory()
+			got, err := c.P.Decrypt(ct, ad)
+			if err != nil || !bytes.Equal(got, pt) {
+				t.Fatalf("%v: Decrypt(Encrypt(pt)) with an all-zero associated data of %d bytes = %x, %v", c, adLen, got, err)
+			}
+			// reference -> Tink under another IV
+			iv2 := gen.Expand(seed+2+uint64(hi), c.IVSize)
+			body2 := append(append([]byte{}, iv2...), sym.AESCTR(c.Key, iv2, pt)...)
+			rct := append(append(append([]byte{}, prefix...), body2...), refTag(body2)...)
+			debug.FreeOSMemory()
+			got, err = c.P.Decrypt(rct, ad)
+			if err != nil || !bytes.Equal(got, pt) {
+				t.Fatalf("%v: Tink cannot decrypt the independent implementation's ciphertext %x (all-zero associated data of %d bytes): %x, %v", c, rct, adLen, got, err)
+			}
+			evid.Case("ctrhmac-huge-ad/"+hashName+"/"+route, true, evid.NewH().S(c.String()).I(adLen).B(pt).Sum(), func() any {
+				return map[string]any{"case": c.String(), "ad_len": adLen, "pt": gen.Hex(pt)}
 			})
 		}
 	}
